@@ -1111,6 +1111,13 @@ func (self *LockDB) checkMillisecondExpried(ms int64, glockIndex uint16) {
 		nodeQueues := lockQueue.IterNodeQueues(int32(i))
 		for j, lock := range nodeQueues {
 			if !lock.expried {
+				if lock.command.ExpriedFlag&protocol.EXPRIED_FLAG_MILLISECOND_TIME == 0 {
+					// the hold has been re-locked or updated with an expiry in seconds or minutes since it was
+					// filed here: its deadline is the one those terms set, file it in the per-second wheel
+					self.AddExpried(lock)
+					nodeQueues[j] = nil
+					continue
+				}
 				lock.expriedTime = lock.startTime + int64(lock.command.Expried/1000) + 1
 				if lock.command.Expried >= MILLISECOND_QUEUE_LENGTH {
 					self.AddExpried(lock)
